@@ -1026,7 +1026,24 @@ class MonC13(object):
             self.split.add(id(x))
 
     def is_split(self, c):
-        return id(c) in self.split
+        """The assembly c belongs to was, or is right now, spread over different places (a *placed* parent
+        whose child is at another workplace or nowhere; a child placed while its parent is still nowhere
+        is the normal sequential regime and does not count)."""
+        if id(c) in self.split:
+            return True
+        here = c.placed_workplace
+        for a in ancestors(c):      # a placed ancestor whose (grand)child is somewhere else / nowhere
+            if a.placed_workplace is not None and a.placed_workplace is not here:
+                return True
+        if here is not None:
+            for d in descendants(c):
+                if d.placed_workplace is not here:
+                    return True
+        return False
+
+    def any_split(self, project):
+        return bool(self.split) or any(self.is_split(c) for c in project.product.component_list
+                                       if c.parent_component_list or c.child_component_list)
 
     def on_write(self, tr, obj, attr, old, new):
         if attr != "placed_workplace" or not isinstance(obj, ns.BaseComponent):
